@@ -159,6 +159,7 @@ func ruleC15(c *Check) {
 	}
 	c.req(nW >= 4, "C15.4", "binding-writes", token.NoPos, fmt.Sprintf("%d stored binding updates examined, none rewrites ServiceName/Provider/Owner", nW))
 	c.setterKeys("C15.7")
+	c.depositPairing("C15.2")
 	// C15.6
 	c.pricingTextPairs("C15.6")
 	// genesis setter covers create's families
@@ -300,6 +301,48 @@ func (c *Check) genesisBindingSetter(rule string) {
 	}
 	c.req(len(missing) == 0, rule, "service.InitGenesis#families", ig.Body.Pos(), "genesis import rebuilds definitions, bindings, owner index, owner maps, parsed pricing, withdraw addresses and contexts"+condStr(len(missing) > 0, "; missing families: "+strings.Join(missing, ",")))
 	c.req(pricingOK, rule, "service.InitGenesis#pricing", ig.Body.Pos(), "the imported binding's pricing terms are parsed from its own pricing text")
+	// per imported binding: the function called for each element of Bindings writes the record and every index on every committed path
+	for _, pa := range c.P.PathsOf(ig) {
+		for _, ev := range pa.Events {
+			if ev.Kind != EvCall || ev.CI.fn == nil || ev.Loop == nil {
+				continue
+			}
+			isBinding := false
+			for _, a := range ev.CI.args {
+				if a.Op == "elem" && len(a.A) == 1 && strings.HasSuffix(a.A[0].Op, ".GenesisState.Bindings") {
+					isBinding = true
+				}
+			}
+			if !isBinding {
+				continue
+			}
+			g := ev.CI.fn
+			var lacking []string
+			n := 0
+			for _, pb := range c.P.PathsOf(g) {
+				if !pb.OK() {
+					continue
+				}
+				n++
+				got := map[string]bool{}
+				for _, e := range c.pathEffects(g, pb) {
+					if e.Kind == "store" && e.Op == "Set" {
+						got[e.Family] = true
+					}
+				}
+				for _, fam := range []string{"0x02", "0x03", "0x04", "0x05", "0x06"} {
+					if !got[fam] {
+						lacking = append(lacking, fam)
+					}
+				}
+			}
+			lacking = uniq(sortStrings(lacking))
+			c.req(n > 0 && len(lacking) == 0, rule, unitConstruct(g, "per-binding-writes"), g.Body.Pos(),
+				"every committed path of the per-binding import writes the record, the owner index, both owner maps and the parsed pricing"+condStr(len(lacking) > 0, "; some path lacks families "+strings.Join(lacking, ",")))
+			return
+		}
+	}
+	c.undecided(rule, "service.InitGenesis#per-binding", ig.Body.Pos(), "no per-binding import call found")
 }
 
 // ------------------------------------------------------------------ C17
